@@ -250,4 +250,5 @@ func runC06(e *Engine, r *Report) {
 	ruleRaftPredicates(e, r, "hasCommittedEntryAtCurrentTerm")
 	ruleReadyKeyedByCtx(e, r)
 	borrow(e, r, "C03", "GD-campaign-pred")
+	ruleConfirmFromAllVoters(e, r)
 }
